@@ -781,13 +781,27 @@ func ruleGR6(c *Ctx) *rule {
 		key = fname(rl.fn) + " returns-accumulator"
 		okRet := false
 		for _, ret := range returnsOf(rl.fn) {
-			if ev := returnedErr(ret); ev != nil && isNilConst(ev) {
-				if ret.Results[0] == ssa.Value(acc) {
-					okRet = true
-				} else {
+			ev := returnedErr(ret)
+			if ev == nil || !mayBeNil(ev, map[ssa.Value]bool{}) || isNilConst(ret.Results[0]) {
+				continue // an error return (no results are handed out)
+			}
+			// the value returned on success: the accumulator itself (error paths of an inlined helper contribute nil)
+			good := false
+			for _, o := range originsKeepPhi(ret.Results[0], acc) {
+				switch {
+				case o == ssa.Value(acc):
+					good = true
+				case isNilConst(o):
+				default:
+					good = false
 					okRet = false
-					break
 				}
+			}
+			if good {
+				okRet = true
+			} else {
+				okRet = false
+				break
 			}
 		}
 		if okRet {
@@ -801,23 +815,18 @@ func ruleGR6(c *Ctx) *rule {
 	for _, k := range rl.K {
 		kBlocks[k.at] = true
 	}
-	type st struct {
-		b, prev *ssa.BasicBlock
-		n       int
-		as      string
-	}
-	seen := map[st]bool{}
+	seen := map[string]bool{}
 	bad := ""
-	var dfs func(b, prev *ssa.BasicBlock, n int, assume map[string]bool)
-	dfs = func(b, prev *ssa.BasicBlock, n int, assume map[string]bool) {
+	var dfs func(b *ssa.BasicBlock, n int, ps *pathState)
+	dfs = func(b *ssa.BasicBlock, n int, ps *pathState) {
 		if bad != "" {
 			return
 		}
-		s := st{b, prev, n, assumeKey(assume)}
-		if seen[s] {
+		k := fmt.Sprintf("%d|%d|%s", b.Index, n, ps.key())
+		if seen[k] {
 			return
 		}
-		seen[s] = true
+		seen[k] = true
 		if kBlocks[b] {
 			n++
 		}
@@ -830,7 +839,7 @@ func ruleGR6(c *Ctx) *rule {
 			n = 2
 		}
 		for i, nx := range b.Succs {
-			as, ok := stepAssume(assume, b, prev, i)
+			_, _, next, ok := ps.branch(b, i)
 			if !ok {
 				continue
 			}
@@ -843,12 +852,15 @@ func ruleGR6(c *Ctx) *rule {
 			if !rl.loop.body[nx] {
 				continue
 			}
-			dfs(nx, b, n, as)
+			dfs(nx, n, next.enter(nx, b))
 		}
 	}
-	for _, nx := range rl.loop.header.Succs {
+	for i, nx := range rl.loop.header.Succs {
 		if rl.loop.body[nx] {
-			dfs(nx, rl.loop.header, 0, map[string]bool{})
+			_, _, next, ok := newPathState().branch(rl.loop.header, i)
+			if ok {
+				dfs(nx, 0, next.enter(nx, rl.loop.header))
+			}
 		}
 	}
 	if bad == "" {
